@@ -160,6 +160,10 @@ func vWinNoise(tp *verifsim.Tape, typ, payload string) ([]byte, []string) {
 }
 
 func vScenarioC16(rc *runCtx) {
+	if rc.param("relaywin", "0") == "1" {
+		vC16RelayWindows(rc)
+		return
+	}
 	tp := rc.tape
 	w := rc.w
 	win := tp.Bool("c16.win", 500)
